@@ -189,6 +189,23 @@ def dist_of(code, width):
     return code - 120
 
 
+def pick_dist(rng, dsyms):
+    """a distance prefix symbol of the code and its extra bits; favours the boundaries of the 120-entry distance map
+    (distance codes 119, 120, 121: prefix symbol 13 with extra bits 22, 23, 24) and the smallest / largest codes"""
+    ds = rng.choice(dsyms)
+    if 13 in dsyms and rng.random() < .3:
+        return 13, rng.choice([22, 23, 23, 24])
+    nb = lz77_extra_bits(ds)
+    if nb and rng.random() < .1:
+        return ds, rng.choice([0, (1 << nb) - 1])
+    return ds, (rng.getrandbits(nb) if nb else 0)
+
+
+def with_13(rng, dsyms):
+    """sometimes make sure prefix symbol 13 (distance codes 97..128, across the end of the distance map) is in the code"""
+    return sorted(set(dsyms) | {13}) if rng.random() < .25 else dsyms
+
+
 def make_code(rng, syms, maxlen, deep):
     syms = list(syms)
     ls = rand_lengths(rng, len(syms), max(maxlen, (len(syms) - 1).bit_length()), deep)
@@ -234,7 +251,7 @@ def write_entropy_image(bw, rng, width, height, style, green_max=255, red_syms=N
         lit = pick(0, green_max, rng.choice([1, 2, 4, 14, 60, 200]))
         lens_syms = [256 + s for s in pick(0, 23, rng.choice([1, 2, 6, 24]))] if rng.random() < 0.75 else []
         csyms = [280 + s for s in pick(0, cache_len - 1, rng.choice([1, 3, 10]))] if cache_len and rng.random() < .7 else []
-        dsyms = pick(0, 39, rng.choice([1, 2, 5, 40]))
+        dsyms = with_13(rng, pick(0, 39, rng.choice([1, 2, 5, 40])))
         kk = rng.choice([1, 1, 2, 5, 40, 256])
         rs = red_syms if red_syms is not None else pick(0, 255, kk)
         bs, as_ = pick(0, 255, rng.choice([1, 2, 40, 256])), pick(0, 255, rng.choice([1, 2, 40, 256]))
@@ -272,8 +289,7 @@ def write_entropy_image(bw, rng, width, height, style, green_max=255, red_syms=N
                         continue
                     le = min(le, n - idx - base)
                     ln = base + le
-                ds = rng.choice(dsyms)
-                de = rng.getrandbits(lz77_extra_bits(ds)) if lz77_extra_bits(ds) else 0
+                ds, de = pick_dist(rng, dsyms)
                 dist = dist_of(lz77_value(ds, de), width)
                 if dist > idx:
                     base = dist_of(lz77_value(ds, 0), width) if lz77_value(ds, 0) > 120 else None
